@@ -43,6 +43,8 @@ EXPLANATION += " Added: (R12) for every format with reader and writer, the unit 
 TRUSTED = ["CPython ast parser", "a dict comprehension {v: k for k, v in d.items()} inverts d iff the values are distinct"]
 
 RUN_TYPES = ["energy", "energy_force", "opt", "scan", "freq"]
+EXPLANATION += ' (R13) count fields are rounded, not truncated (fchk, wfx, fcidump, molekel); (R14) formats whose reader splits lines at white space are written with a literal separator between neighbouring fields, so that a counter filling its field cannot merge with its neighbour.'
+TECHNIQUE += '; count-field rule; token-separation rule on writer templates'
 
 
 def _lev(a, b):
@@ -77,7 +79,7 @@ def _label_of(f, e):
 def run(ctx):
     prog = ctx.prog
     ce = ConstEval(prog)
-    ctx.clauses_decided = ["R2 FCHK label tables", "R3 index offsets (writers)", "R4 FCIDUMP index-order pairing", "R5 lookup-table bijections", "R6 POSCAR same-order coherence", "R7 dict attributes never None", "R8 FCHK run-type vocabulary", "R9 options reach the per-frame routines", "R10 writer flattening vs reader reshape (symbolic evaluation)", "R11 layout-independent traversal", "R12 reader/writer unit factors are inverse"]
+    ctx.clauses_decided = ["R2 FCHK label tables", "R3 index offsets (writers)", "R4 FCIDUMP index-order pairing", "R5 lookup-table bijections", "R6 POSCAR same-order coherence", "R7 dict attributes never None", "R8 FCHK run-type vocabulary", "R9 options reach the per-frame routines", "R10 writer flattening vs reader reshape (symbolic evaluation)", "R11 layout-independent traversal", "R12 reader/writer unit factors are inverse", "R13 count fields rounded", "R14 token separation", "R15 Molekel centre separators (evaluated)", "R16 chunked sections complete (evaluated)"]
     ctx.clauses_declined = ["equality of real data to the digits printed", "behaviour at field overflow", "multi-line titles", "whether every optional attribute present is written", "R1/R9: decided under C03-R5 / C03-R2"]
 
     # ------------------------------------------------------------------ R2
@@ -486,6 +488,12 @@ def run(ctx):
     check_count_fields(ctx, "R13")
 
     # ------------------------------------------------------------------ R14
+    from .centers import check_molekel_centers
+
+    ctx.rule("R15", "Molekel: shells come back on the atom they were written for (writer fragment and reader evaluated)", "a basis with an atom that carries no functions is written so that iodata cannot read the file back")
+    check_molekel_centers(ctx, "R15")
+    ctx.rule("R16", "chunked sections write every value once, in order (evaluated)", "a template with fewer fields than values per line drops values silently: the section is too short to be read back")
+    check_chunked_sections(ctx, "R16")
     ctx.rule("R14", "formats read by splitting at white space are written with a literal separator between neighbouring fields", "for a large system a counter fills its field and touches its neighbour: the written line has fewer tokens and cannot be read back")
     with open(os.path.join(VERIF_DIR, "spec", "layouts.json")) as fh:
         column_formats = set(json.load(fh)) - {"_comment"}
@@ -538,3 +546,87 @@ def _writer_funcs(prog):
     roots = [g for short in prog.format_modules() for op in ("dump_one", "dump_many") for g in [prog.format_op(short, op)] if g is not None]
     roots += [g for short, m in prog.input_modules().items() for g in [prog.funcs.get(f"{m.name}.write_input")] if g is not None]
     return prog.callees_closure(roots)
+
+
+def check_chunked_sections(ctx, rid):
+    """Chunk writers (`fmt.format(*chunk)` in a loop over slices) write every value once, in order.
+
+    `str.format` silently ignores surplus positional arguments, so a template with fewer fields than the chunk holds
+    drops values without any error.  Each call site of such a helper is evaluated (accessor evaluator, model output
+    file) with its own constant template / width / chunk-size arguments on integer sequences of several lengths around
+    the chunk size; the numbers found in the written text must be the sequence itself."""
+    from ..accessors import AccessorEval, Raised, TextSink
+    from ..symarr import NotSymbolic
+
+    prog = ctx.prog
+    helpers = []
+    for f in prog.package_funcs():
+        if not f.module.name.startswith("iodata.formats."):
+            continue
+        starred = [n for n in f.own_nodes() if isinstance(n, ast.Call) and isinstance(n.func, ast.Attribute) and n.func.attr == "format" and any(isinstance(a, ast.Starred) for a in n.args)]
+        loops = [n for n in f.own_nodes() if isinstance(n, (ast.While, ast.For))]
+        if starred and loops and len(f.posparams) >= 3:
+            helpers.append(f)
+    nsite = 0
+    for h in helpers:
+        for g in prog.package_funcs():
+            for cs in g.calls:
+                if h not in cs.callees:
+                    continue
+                b, _e, okb = bind_call(cs.node, h)
+                if not okb:
+                    raise AnalysisError(f"{g.qualname}: call of {h.name} cannot be bound")
+                nsite += 1
+                # constant arguments (module constants are evaluated); the data argument and the file are supplied
+                ev0 = AccessorEval(prog, None)
+                ev0.module = g.module
+                consts = {}
+                dataparam = None
+                for p_ in h.posparams[1:]:
+                    a = b.get(p_)
+                    if a is None:
+                        continue
+                    try:
+                        v = ev0._eval(a, {})
+                    except (NotSymbolic, Raised, KeyError):
+                        v = None
+                    if isinstance(v, (str, int)) and not isinstance(v, bool):
+                        consts[p_] = v
+                    elif dataparam is None:
+                        dataparam = p_
+                ints = sorted(v for v in consts.values() if isinstance(v, int) and v > 1)
+                nline = max(ints) if ints else None
+                cand = [p_ for p_, v in consts.items() if isinstance(v, int) and v == nline]
+                if dataparam is None or nline is None:
+                    raise AnalysisError(f"{g.qualname}: arguments of {h.name} at line {cs.node.lineno} are not constants")
+                bad = None
+                for n in sorted({1, nline - 1, nline, nline + 1, 2 * nline + 3}):
+                    seq = [(7 * i_) % 9 + 1 for i_ in range(n)]
+                    sink = TextSink()
+                    env = dict(consts)
+                    env[h.posparams[0]] = sink
+                    env[dataparam] = list(seq)
+                    try:
+                        AccessorEval(prog, None, limit=4000).run_free(h, [], env)
+                    except Raised as exc:
+                        bad = f"{n} values: raises {exc.args[0]}"
+                        break
+                    except NotSymbolic as exc:
+                        raise AnalysisError(f"{h.qualname} is outside the evaluation whitelist: {exc}") from exc
+                    got = []
+                    skip = next((v for p_, v in consts.items() if isinstance(v, int) and v != nline and p_ in ("skip",)), 0)
+                    for ln in sink.text.split("\n"):
+                        for tok in ln[skip:].split():
+                            try:
+                                got.append(int(round(float(tok))))
+                            except ValueError:
+                                pass
+                    if got != seq:
+                        bad = f"{n} values handed over, {len(got)} written" if len(got) != len(seq) else f"{n} values are written in another order"
+                        break
+                where = f"{g.module.relpath}:{cs.node.lineno}"
+                if bad:
+                    ctx.violate(rid, f"{g.name}: `{src_of(cs.node)[:70]}`: {bad} (a template with fewer fields than the chunk holds drops the surplus silently)", g, cs.node, construct=f"{src_of(cs.node)[:80]}: {bad}")
+                else:
+                    ctx.ok(rid, f"{g.name}: `{src_of(cs.node)[:60]}` writes every value once, in order (sequences of 1 .. {2 * nline + 3} values)", where)
+    ctx.floor(rid, nsite, 5, "call sites of chunk writers")
